@@ -27,6 +27,10 @@ CLAIMS = {
          "Necessary conditions decided on every enumerated path: the complete reply table of handle_request in both back ends (request kind x validator outcome x access list -> reply kind, transaction id and destination), error replies for sendable parse errors only under a valid id for (source, that error's id), per-datagram slices of the mio receive loop with at most one send (exactly one when answered, none for port 0), the io_uring queue/send path keeping reply and address together, 16-byte connect reply <= smallest accepted connect request, scrape order and limit origin.",
          "Not decided: kernel delivery, resend timing; the io_uring request buffer size question is decided under C18. Receive loop unrolled once; path feasibility not solved.",
          "DESIGN.md section 2, C06"),
+ "C03": ("closed-world taint query (request address fields never read), inter-procedural origin chase of the stored ip over all callers, constructor discipline, complete decision tables of the canonicalisation",
+         "Proof over listed obligations: AnnounceRequest.ip_address has zero reads in aquatic_udp (positive control: .port), HTTP/WS requests have no address field or query key; the ip that forms the peer-map key is chased hop by hop through every caller to recv_from().1 / the recvmsg name / TcpStream::peer_addr or parse_forwarded_header's result, switched exactly by runs_behind_reverse_proxy; CanonicalSocketAddr literals exist only in its constructor whose decision table is exactly ::ffff:a.b.c.d -> V4(a.b.c.d, port); the WebTorrent family classifier has the same 12-byte pattern; family selection uses the canonical address.",
+         "Trusted: kernel-reported addresses, httparse, std IpAddr parsing. Not decided: dual-stack kernel behaviour.",
+         "DESIGN.md section 2, C03"),
 }
 
 PENDING_REASON = "check under construction in this build phase (static rules designed in DESIGN.md section 2); not claimed until its rule set is validated both ways"
